@@ -29,7 +29,8 @@ SPEC = {
     "required_theorems": [
         "C20_vertex_entities", "C20_index_map_injective", "C20_index_map_onto", "C20_table_row",
         "C20_dart_start", "C20_dart_end", "C20_edge_entity", "C20_face_corners", "C20_dart_entities_of_face",
-        "C20_3d_vertex_entities", "C20_3d_dart_start", "C20_3d_edge_entity",
+        "C20_each_dart_once", "C20_no_panic",
+        "C20_3d_vertex_entities", "C20_3d_dart_start", "C20_3d_edge_entity", "C20_3d_face_entity",
     ],
     "trusted_base": [
         "Lean 4.33 kernel; axioms propext, Classical.choice, Quot.sound only",
@@ -44,8 +45,9 @@ SPEC = {
         "coordinates are exactly representable in f32 (the table is Vec<Vec3>: an f64 map is rounded to f32; generators use "
         "small dyadic numbers, compared exactly)",
         "maps have fewer than 2^32 darts",
-        "theorems are conditional on `extract2 m = some sc` (the start-up system does not panic); panic-freedom on embedded "
-        "closed-face maps is carried by the correspondence run",
+        "2-D theorems: WF 3 m, ClosedFaces (every in-use dart has a β1 image), for C20_no_panic also NoLoops (no 1-sided face; "
+        "the Rust code indexes vertex_ids[1]) and Embedded; they are stated for `extract2 m = some sc`, which C20_no_panic "
+        "provides.  3-D theorems are conditional on `extract3 m = some sc`",
     ],
     "rule": "correspondence hcmodel vs hcrender on: every WF 2-map with n<=N darts (N=4 quick / 5 thorough) incl. removed, "
             "isolated, open and degenerate faces (model must predict panic or the exact scene); every WF 3-map n<=3 (4: sample); "
@@ -56,16 +58,16 @@ SPEC = {
             "sides, every vertex id embedded, 3-D: mirrored faces; normals additionally need non-degenerate corners). "
             "distinct_nontrivial = distinct implementation transcripts.",
     "not_proved": [
-        "normals (FaceNormals / VolumeNormals vectors) are finite unit vectors: glam f32 arithmetic, oracle only "
-        "(|‖n‖-1| < 1e-4 recomputed from the printed decimals)",
-        "panic-freedom of the extraction on embedded closed-face maps (needs vertexId (vertexId d) = vertexId d etc. from "
-        "C03); the theorems assume `extract2 m = some sc`",
-        "global dart count: every in-use dart lies on exactly one emitted face walk (needs C03's characterisation of "
-        "faceId / iter_faces as orbit minima); proved: per face the dart entities are exactly the β1-cycle of the face id, "
-        "without repetition",
-        "3-D: two-sided enumeration (the second side β3(id) is exactly the mirror of the first), 3-D dart end / face corner "
-        "order (needs the walk lemma for orbit3), VolumeNormals keys: correspondence + oracle only",
-        "the printed order of entities (sorted by the harness) — bevy's spawn order is not part of the property",
+        "normals (FaceNormals / VolumeNormals vectors) are finite unit vectors: glam f32 arithmetic is not modelled; oracle "
+        "only (|‖n‖-1| < 1e-4 recomputed from the printed decimals).  The clause is FALSE in 3-D at straight corners "
+        "(known finding D20a)",
+        "3-D: dart `end` = vertex of β1 d, face corner order = β1-cycle, the two-sided dart enumeration (second side from "
+        "β3(id) is exactly the mirror side, one entity per in-use dart), panic-freedom and the VolumeNormals keys: they need "
+        "the walk lemma / id theory for orbit3, faceId3 (C03 covers 2-D only).  Proved in 3-D: vertex entities, table rows, "
+        "dart ids + start, edge ends, face ids + corner rows along the Custom[1] walk.  Rest: correspondence + oracle",
+        "FaceNormals keys = (face, corner row) pairs: only modelled and compared (correspondence + oracle), no theorem",
+        "the theorems speak about the model; that bevy applies the spawn commands and the harness dumps every entity is "
+        "trusted (the dump prints the total entity count, checked by the oracle)",
     ],
 }
 
